@@ -56,13 +56,20 @@ def main():
                 pass
     for sd in SEEDS:
         for patch in sorted(glob.glob(sd + "/patch*.diff")):
-            n = re.search(r"patch(\d+)\.diff", patch).group(1)
-            name = os.path.basename(sd.rstrip("/")) + "/" + n
+            if os.path.basename(patch) == "patch.diff":
+                # layout of /verif/seeded/<Cxx-n>/: patch.diff, demo.py, meta.json
+                pid, n = os.path.basename(sd.rstrip("/")).split("-")
+                name = f"seed_{pid}/{n}"
+                demo, metaf = f"{sd}/demo.py", f"{sd}/meta.json"
+            else:
+                n = re.search(r"patch(\d+)\.diff", patch).group(1)
+                name = os.path.basename(sd.rstrip("/")) + "/" + n
+                demo, metaf = f"{sd}/demo{n}.py", f"{sd}/meta{n}.json"
             if name in done:
                 continue
             meta = {}
             try:
-                meta = json.load(open(f"{sd}/meta{n}.json"))
+                meta = json.load(open(metaf))
             except Exception:
                 pass
             sh(f"git -C {ROOT}/repo checkout -- . ; git -C {ROOT}/repo clean -fdq")
@@ -71,7 +78,7 @@ def main():
                 rec = {"seed": name, "error": "patch does not apply: " + a.stderr[:200]}
             else:
                 t = sh(f"cd {ROOT}/repo && /venv/bin/python -m pytest -q -p no:cacheprovider tests 2>&1 | tail -1").stdout.strip()
-                d1 = sh(f"PYAB_SRC={ROOT}/repo/src /venv/bin/python {sd}/demo{n}.py").returncode
+                d1 = sh(f"PYAB_SRC={ROOT}/repo/src /venv/bin/python {demo}").returncode
                 own = meta.get("property") or os.path.basename(sd.rstrip("/")).split("_")[-1]
                 order = [own] + ([] if OWN_ONLY else [c for c in CHECKS if c != own])
                 res = [run_check(c, 0) for c in order]
